@@ -192,6 +192,105 @@ theorem C18_history (fs : OutFS K ρ) (before : List (FilterCall K ρ)) (c : Fil
       (b.input.filter (fun r => !goesGood b.chi b.cpd r))) (fun q hq => hdom q (List.mem_cons_of_mem _ hq))
     exact ⟨fs', by simpa [runFilterCalls, filterOutputFS, filterOutput_ok b.chi b.cpd b.input hb] using h1, h2, h3⟩
 
+/-! ### further statements the correspondence check enforces -/
+
+/-- **C18 (histories, independence).** What the two paths hold after a call does not depend on the
+    earlier calls at all, nor on what the paths (or any other file) held to begin with. -/
+theorem C18_history_indep (fs1 fs2 : OutFS K ρ) (before1 before2 : List (FilterCall K ρ)) (c : FilterCall K ρ)
+    (h1 : ∀ b ∈ before1, HasBest b.input) (h2 : ∀ b ∈ before2, HasBest b.input) (hc : HasBest c.input)
+    (hpaths : c.goodPath ≠ c.badPath) :
+    ∃ r1 r2, runFilterCalls fs1 (before1 ++ [c]) = .ok r1 ∧ runFilterCalls fs2 (before2 ++ [c]) = .ok r2 ∧
+      r1.read c.goodPath = r2.read c.goodPath ∧ r1.read c.badPath = r2.read c.badPath := by
+  obtain ⟨r1, e1, g1, b1⟩ := C18_history fs1 before1 c h1 hc hpaths
+  obtain ⟨r2, e2, g2, b2⟩ := C18_history fs2 before2 c h2 hc hpaths
+  exact ⟨r1, r2, e1, e2, by rw [g1, g2], by rw [b1, b2]⟩
+
+theorem hasBest_filter (input : List (OutRec K ρ)) (h : HasBest input) (p : OutRec K ρ → Bool) :
+    HasBest (input.filter p) := fun r hr => h r (List.mem_filter.mp hr).1
+
+/-- **C18 (re-filtering is stable).** Filtering the *good* file again with the same criterion gives the
+    same good file and an empty bad file; filtering the *bad* file gives an empty good file and the
+    same bad file. -/
+theorem C18_refilter (chi cpd : Option (EF K)) (input good bad : List (OutRec K ρ))
+    (hrun : filterOutput chi cpd input = .ok (good, bad)) (h : HasBest input) :
+    filterOutput chi cpd good = .ok (good, []) ∧ filterOutput chi cpd bad = .ok ([], bad) := by
+  rw [filterOutput_ok chi cpd input h] at hrun
+  simp only [Except.ok.injEq, Prod.mk.injEq] at hrun
+  obtain ⟨rfl, rfl⟩ := hrun
+  constructor
+  · rw [filterOutput_ok chi cpd _ (hasBest_filter input h _)]
+    congr 2
+    · simp [List.filter_filter]
+    · rw [List.filter_filter]
+      apply List.filter_eq_nil_iff.mpr
+      intro r _
+      cases goesGood chi cpd r <;> simp
+  · rw [filterOutput_ok chi cpd _ (hasBest_filter input h _)]
+    congr 2
+    · rw [List.filter_filter]
+      apply List.filter_eq_nil_iff.mpr
+      intro r _
+      cases goesGood chi cpd r <;> simp
+    · simp [List.filter_filter]
+
+/-- a source whose flag array has been edited (in place or not) -/
+def withFlags (r : OutRec K ρ) (fl : List Nat) : OutRec K ρ := { r with flags := fl }
+
+/-- **C18 (flags as they are at call time).** The decision for a record depends on its flags only
+    through `n_data` of the flags it carries when the call is made: after an edit the decision is the
+    one for the new count, two flag arrays with the same number of 1/4 entries give the same decision,
+    and in a history the files of a call reflect the flags its input has at that call. -/
+theorem C18_current_flags (chi cpd : Option (EF K)) (r : OutRec K ρ) (fl fl' : List Nat) :
+    (∀ c0 t, r.chi2 = c0 :: t → goesGood chi cpd (withFlags r fl) = isGood chi cpd c0 (nDataSrc fl)) ∧
+    (nDataSrc fl = nDataSrc fl' → goesGood chi cpd (withFlags r fl) = goesGood chi cpd (withFlags r fl')) ∧
+    (∀ (fs : OutFS K ρ) (before : List (FilterCall K ρ)) (c : FilterCall K ρ) (edit : OutRec K ρ → List Nat),
+      (∀ b ∈ before, HasBest b.input) → HasBest c.input → c.goodPath ≠ c.badPath →
+      ∃ fs', runFilterCalls fs (before ++ [{ c with input := c.input.map (fun q => withFlags q (edit q)) }]) = .ok fs' ∧
+        fs'.read c.goodPath = some ((c.input.map (fun q => withFlags q (edit q))).filter (goesGood c.chi c.cpd))) := by
+  refine ⟨?_, ?_, ?_⟩
+  · intro c0 t hc
+    simp [goesGood, withFlags, hc]
+  · intro hn
+    cases hc : r.chi2 with
+    | nil => simp [goesGood, withFlags, hc]
+    | cons c0 t => simp [goesGood, withFlags, hc, hn]
+  · intro fs before c edit hb hc hp
+    have hc' : HasBest (c.input.map (fun q => withFlags q (edit q))) := by
+      intro q hq
+      obtain ⟨q0, hq0, rfl⟩ := List.mem_map.mp hq
+      exact hc q0 hq0
+    obtain ⟨fs', e, g, _⟩ := C18_history fs before { c with input := c.input.map (fun q => withFlags q (edit q)) } hb hc' hp
+    exact ⟨fs', e, g⟩
+
+/-- **C18 (chi= and cpd= are different criteria, related by n_data).** For a source with `n ≥ 1`
+    fitted points, the threshold `cpd = t` decides exactly like the threshold `chi = n·t` — for every
+    best chi² (finite, `±inf`, NaN) and every finite `t`; so the two criteria coincide when `n = 1`
+    and only then in general (see the example below). -/
+theorem C18_chi_vs_cpd (c0 : EF K) (t : K) (n : Nat) (hn : 0 < n) :
+    isGood none (some (EF.fin t)) c0 n = isGood (some (EF.fin (natK n * t))) none c0 n ∧
+    (n = 1 → isGood none (some (EF.fin t)) c0 n = isGood (some (EF.fin t)) none c0 n) := by
+  have hpos : (0 : K) < natK n := natK_pos hn
+  have hne : (natK n : K) ≠ 0 := ne_of_gt hpos
+  have hnl : ¬ (natK n : K) < 0 := not_lt.mpr (le_of_lt hpos)
+  have key : isGood none (some (EF.fin t)) c0 n = isGood (some (EF.fin (natK n * t))) none c0 n := by
+    have htr : (decide (natK n * t = 0)) = decide (t = 0) := by
+      by_cases ht : t = 0
+      · simp [ht]
+      · simp [ht, hne]
+    cases c0 with
+    | nan => simp [isGood, optTruthy, optBelow, EF.divN, EF.lt]
+    | pinf => simp [isGood, optTruthy, optBelow, EF.divN, EF.lt, hnl]
+    | ninf => simp [isGood, optTruthy, optBelow, EF.divN, EF.lt, hnl, EF.truthy, htr, hne]
+    | fin x =>
+      have hlt : decide (x / natK n < t) = decide (x < natK n * t) := by
+        congr 1
+        rw [div_lt_iff₀ hpos, mul_comm]
+      simp [isGood, optTruthy, optBelow, EF.divN, EF.lt, hne, EF.truthy, htr, hlt]
+  refine ⟨key, ?_⟩
+  intro h1
+  rw [key, h1]
+  simp [natK]
+
 /-! ### Non-vacuity -/
 
 def exInputC18 : List (OutRec Rat String) :=
@@ -217,5 +316,20 @@ example : (filterOutput none (some (EF.fin 3)) exInputC18).toOption.map
 example : ((runFilterCalls ([] : OutFS Rat String)
       [⟨exInputC18, "g", "b", none, some (EF.fin 3)⟩, ⟨exInputC18.take 2, "g", "b", some (EF.fin 100), none⟩]).toOption.bind
       (fun fs => fs.read "b")).map (fun l => l.map (·.rest)) = some [] := by decide +kernel
+
+/-- separating example: best chi² 10 on 4 fitted points is good for `cpd = 3` (2.5 per point) and bad for
+    `chi = 3`; and `cpd = 3` decides like `chi = 12` -/
+example : isGood (K := Rat) none (some (EF.fin 3)) (EF.fin 10) 4 = true ∧
+    isGood (K := Rat) (some (EF.fin 3)) none (EF.fin 10) 4 = false ∧
+    isGood (K := Rat) (some (EF.fin 12)) none (EF.fin 10) 4 = true := by decide +kernel
+
+/-- re-filtering the example's good file: nothing moves -/
+example : (filterOutput none (some (EF.fin 3)) (exInputC18.filter (goesGood none (some (EF.fin 3))))).toOption.map
+      (fun gb => (gb.1.map (·.rest), gb.2.map (·.rest))) = some (["s1", "s5"], []) := by decide +kernel
+
+/-- an in-place edit that drops two fitted points of `s1` (4/3 → 4/1 per point) turns it bad for `cpd = 3` -/
+example : goesGood none (some (EF.fin (3 : Rat))) (⟨[EF.fin 4], [1, 1, 1], "s1"⟩ : OutRec Rat String) = true ∧
+    goesGood none (some (EF.fin (3 : Rat))) (withFlags (⟨[EF.fin 4], [1, 1, 1], "s1"⟩ : OutRec Rat String) [1, 0, 0]) = false := by
+  decide +kernel
 
 end SF
